@@ -153,6 +153,9 @@ NONTRIVIAL = {
     "C12": ("cancelled", "the run was cancelled at the enumerated poll index"),
     "C13": ("reused", "a solve on a solver that had solved before"),
     "C14": ("soft", "the problem has soft requirements"),
+    "C02": ("learnt", "the run learnt at least one clause (conflict analysis and a backjump took place)"),
+    "C04": ("unsat+synthconflict", "the run built and rendered a conflict (from a solve, or assembled from the facts of the universe)"),
+    "C15": ("oracle+sat", "a verdict about candidates of one package was judged (pair: Unsolvable per the oracle; single: solution validated)"),
 }
 
 
@@ -358,7 +361,7 @@ def finish_trace_check(prop, tier, seed, res, t0, total_cases, extra_cov=None, e
         print(f"VIOLATION property={prop} replay={path}")
         log("  " + msg)
     tag = NONTRIVIAL.get(prop)
-    nontrivial = res.cover.get(tag[0], 0) if tag else res.runs
+    nontrivial = min(res.runs, sum(res.cover.get(t, 0) for t in tag[0].split("+"))) if tag else res.runs
     cov = {
         "evaluations": res.runs,
         "distinct_nontrivial": nontrivial,
